@@ -63,11 +63,12 @@ known("KF10-equal-terms-with-different-hashes", ["C18"],
       match_any=[{"clause": "eq-but-different-hash", "cause": "same-text-different-class"},
                  {"clause": "eq-but-different-hash", "cause": "negation-spelling"}])
 known("KF11-python-equality-stricter-than-unification", ["C18"],
-      "ground terms that ProbLog's unification treats as identical do not compare equal: a quoted atom 'a' vs a (signature strips the quotes, == does not), Term('1') vs Constant(1) as arguments, Not('\\+',a) vs Term('\\+',a)",
+      "ground terms that ProbLog's unification treats as identical do not compare equal: a quoted atom 'a' vs a (signature strips the quotes, == does not), Term('1') vs Constant(1) as arguments, Not('\\+',a) vs Term('\\+',a), and - below a functor or in a list - Term(',',a,b) vs And(a,b), Term(';',a,b) vs Or(a,b) (Term.__eq__ compares the classes of nested arguments)",
       "Term(\"'a'\") != Term('a') but unify_value accepts the pair; Term('f',Term('a'),Constant(1)) != Term('f',Term('a'),Term('1'))",
       match_any=[{"clause": "eq-differs-from-unification", "cause": "quoted-vs-unquoted-atom"},
                  {"clause": "eq-differs-from-unification", "cause": "same-text-different-class"},
-                 {"clause": "eq-differs-from-unification", "cause": "negation-spelling"}])
+                 {"clause": "eq-differs-from-unification", "cause": "negation-spelling"},
+                 {"clause": "eq-differs-from-unification", "cause": "same-term-different-classes"}])
 
 known("KF35-negative-zero-equal-but-not-unifiable", ["C18"],
       "0.0 and -0.0 compare equal (Python float equality) and hash alike, but unification compares signatures (printed text) and rejects the pair",
